@@ -472,7 +472,7 @@ def gen_knob_variants(rng: random.Random) -> list[dict[str, Any]]:
 
 
 def run_case(env: Env, case: dict[str, Any], want_trace: bool = False) -> dict[str, Any]:
-    scratch = tempfile.mkdtemp(prefix="dst-c14-", dir=SCRATCH_BASE)
+    scratch = tempfile.mkdtemp(prefix="dst-c14-" + os.environ.get("VERIF_RUN_TAG", "x") + "-", dir=SCRATCH_BASE)
     try:
         return _run_case(env, case, scratch, want_trace)
     finally:
